@@ -13,6 +13,7 @@ import (
 	"net/http"
 	"strings"
 	"sync"
+	"sync/atomic"
 	"testing"
 	"time"
 
@@ -50,7 +51,7 @@ func genC11(t *rapid.T) C11Case {
 	}
 	m := rapid.IntRange(0, 2*n+2).Draw(t, "nacts")
 	for i := 0; i < m; i++ {
-		c.Acts = append(c.Acts, C11Act{Op: rapid.SampledFrom([]string{"release", "release", "send", "send-connect", "disconnect", "newconn", "tunnel-echo", "sleep"}).Draw(t, "op"), I: rapid.IntRange(0, n-1).Draw(t, "i")})
+		c.Acts = append(c.Acts, C11Act{Op: rapid.SampledFrom([]string{"release", "release", "send", "send-connect", "disconnect", "newconn", "tunnel-echo", "sleep", "long-sleep"}).Draw(t, "op"), I: rapid.IntRange(0, n-1).Draw(t, "i")})
 	}
 	return c
 }
@@ -81,6 +82,7 @@ type c11Resp struct {
 	m   *Msg
 	err error
 	eof bool // connection closed by the proxy after the response
+	respAt, eofAt time.Time // response completely read; end-of-stream seen
 }
 
 func c11Origin() (*Peer, error) {
@@ -94,7 +96,7 @@ func c11Origin() (*Peer, error) {
 func runC11(c C11Case) []vstat.Failure {
 	fails := runC11once(c)
 	for _, f := range fails {
-		if strings.Contains(f.Key, ":late-request-forwarded") || strings.Contains(f.Key, ":timeout") {
+		if strings.Contains(f.Key, ":late-request-forwarded") || strings.Contains(f.Key, ":timeout") || strings.Contains(f.Key, ":inflight-closed-only-when-drain-ended") {
 			st.Inconclusive()
 			return runC11once(c) // timing-dependent clauses must fail twice in a row
 		}
@@ -203,14 +205,14 @@ func runC11once(c C11Case) (fails []vstat.Failure) {
 			go func(cl *c11Client) {
 				cl.conn.SetReadDeadline(time.Now().Add(25 * time.Second))
 				m, err := ReadResponse(cl.br, "GET")
-				r := c11Resp{m: m, err: err}
+				r := c11Resp{m: m, err: err, respAt: time.Now()}
 				if err == nil {
 					wait := 3 * time.Second
 					if cl.spec.Phase != "at-origin" {
 						wait = 20 * time.Millisecond // not asserted for responses that had begun before shutdown
 					}
 					closed, _, _ := WaitClosed(cl.conn, cl.br, wait)
-					r.eof = closed
+					r.eof, r.eofAt = closed, time.Now()
 				}
 				cl.respDone <- r
 			}(cl)
@@ -239,8 +241,14 @@ func runC11once(c C11Case) (fails []vstat.Failure) {
 	ctx, cancel := context.WithTimeout(context.Background(), deadline)
 	defer cancel()
 	tShutdown := time.Now()
+	var drainEnd atomic.Int64 // when Shutdown returned (bare) / Run returned (forwarder)
+	var lateClosed []string   // in-flight exchanges whose connection stayed open long after the response
 	if bare != nil {
-		go func() { shutdownRet <- bare.Shutdown(ctx) }()
+		go func() {
+			err := bare.Shutdown(ctx)
+			drainEnd.Store(time.Now().UnixNano())
+			shutdownRet <- err
+		}()
 		// Shutdown enters the closing state as its first action (it then holds the connection table's
 		// lock until it returns, so connections accepted meanwhile are parked, not served). There is no
 		// black-box signal for "closing entered" while it runs, hence a margin; clauses that depend on
@@ -253,6 +261,10 @@ func runC11once(c C11Case) (fails []vstat.Failure) {
 		}
 	} else {
 		fw.Cancel()
+		go func() {
+			<-fw.Done()
+			drainEnd.Store(time.Now().UnixNano())
+		}()
 		// the listener is closed before the drain starts; wait until dials are refused, then a margin
 		refused := false
 		for try := 0; try < 400 && !refused; try++ {
@@ -318,6 +330,8 @@ func runC11once(c C11Case) (fails []vstat.Failure) {
 			}
 		case "sleep":
 			time.Sleep(time.Duration(10+a.I*20) * time.Millisecond)
+		case "long-sleep":
+			time.Sleep(250 * time.Millisecond)
 		}
 	}
 	// release everything that is still gated, then let tunnels / idle connections go
@@ -352,6 +366,9 @@ func runC11once(c C11Case) (fails []vstat.Failure) {
 				fails = append(fails, vstat.Failf(key("inflight-lost"), "connection %d (%s): the request had reached its origin before shutdown, but the response did not arrive intact: %v", i, cl.spec.Phase, r.err))
 			case r.m.Status != 200 || !bytes.Equal(r.m.Body, cl.wantBody):
 				fails = append(fails, vstat.Failf(key("inflight-corrupt"), "connection %d (%s): response status %d with %d body bytes, want 200 with %d", i, cl.spec.Phase, r.m.Status, len(r.m.Body), len(cl.wantBody)))
+			case r.eof && cl.spec.Phase == "at-origin" && r.eofAt.Sub(r.respAt) > 100*time.Millisecond:
+				// judged once the end of the drain is known: closing a finished connection must not wait for it
+				lateClosed = append(lateClosed, fmt.Sprintf("%d|%d|%d", i, r.respAt.UnixNano(), r.eofAt.UnixNano()))
 			case !r.eof && cl.spec.Phase == "at-origin":
 				// (a response whose head was already on the wire when shutdown began cannot announce the
 				// close any more; only responses written during shutdown are required to end the connection)
@@ -477,6 +494,20 @@ func runC11once(c C11Case) (fails []vstat.Failure) {
 			time.Sleep(50 * time.Millisecond)
 			if v = fw.Gather()["forwarder_listener_cx_active{}"]; v != 0 {
 				fails = append(fails, vstat.Failf(key("open-connection-count"), "listener_cx_active = %v after shutdown completed and every socket was closed", v))
+			}
+		}
+	}
+	// "its response is delivered in full and the proxy then closes that connection": a connection whose exchange
+	// finished during the drain is closed then, not when the drain ends (other connections may keep it going
+	// until the deadline)
+	if end := drainEnd.Load(); end != 0 {
+		for _, lc := range lateClosed {
+			var i int
+			var respAt, eofAt int64
+			fmt.Sscanf(strings.ReplaceAll(lc, "|", " "), "%d %d %d", &i, &respAt, &eofAt)
+			if eofAt >= end-int64(5*time.Millisecond) {
+				fails = append(fails, vstat.Failf(key("inflight-closed-only-when-drain-ended"), "connection %d (%s): response complete %v after shutdown began, connection closed only %v later - when the drain ended (%v after shutdown began), not when the exchange finished",
+					i, clients[i].spec.Phase, time.Duration(respAt-tShutdown.UnixNano()).Round(time.Millisecond), time.Duration(eofAt-respAt).Round(time.Millisecond), time.Duration(end-tShutdown.UnixNano()).Round(time.Millisecond)))
 			}
 		}
 	}
